@@ -14,6 +14,9 @@ func VH_C13() {
 	os.Stderr = vFile(2)
 	defaultWriter = newDualWriter()
 	rec := &vRec{}
+	if vBool() {
+		errVFault = vErrList{"injected"} // failing destinations report an error of an uncomparable type
+	}
 	faultsOn := true
 	attempts, attemptLimit := 0, 1<<30
 	rec.faults = func(w int) bool {
